@@ -106,6 +106,10 @@ def cases(tier, seed):
         out.append(('idx', ((2, 3, 2),), c))
     for c in [('E', ('a', (1, 1, 0))), ('E', ('a', (0, 1))), ('E', ('m', (True, False))), ('E', 0), ('E',), ('E', ('s', 0, 1, None))]:
         out.append(('idx', ((2,), (3, 2)), c))
+    # leaves whose INDEXED axis has different lengths: the multiplicity diagonal of P.T @ P cannot be shared between the leaves
+    for shapes in [((3,), (2, 4)), ((2, 4), (3,)), ((4,), (3,), (2, 5))]:
+        out.append(('idx', shapes, ('E', ('a', (1, 1, 0)))))
+        out.append(('idx', shapes, ('E', ('a', (2, -1, 2, 0)))))
     for v in [(0, 1), (1, 1, 0), (-1,), (1, -1, 0)]:
         out.append(('idx', 'IQU2', (('a', v),)))
     seen, res = set(), []
